@@ -9,9 +9,10 @@ CONSTANTS
   ScrollOffC = 1
   InputlessC = FALSE
   Multis = {0, 2, 2147483647}
+  Tracks = {0}
   ActFilter = "list"
 INIT Init
 NEXT Next
 CONSTRAINT Bound
-INVARIANTS InvType InvLimit InvNoMulti InvRendered InvToggleInvolution InvAllLocal InvDeselectAll InvSurvive
+INVARIANTS InvType InvLimit InvNoMulti InvRendered InvToggleInvolution InvAllLocal InvDeselectAll InvSurvive InvTrackFollows
 CHECK_DEADLOCK FALSE
